@@ -387,7 +387,8 @@ where
     let operand = D::from(operand);
     let mut r = operand;
 
-    for _i in 1..exponent.abs() {
+    // unsigned_abs: i32::MIN has no positive counterpart in i32
+    for _i in 1..exponent.unsigned_abs() {
         r = if let Some(r) = r.checked_mul(operand) {
             r
         } else {
